@@ -5,14 +5,16 @@ set -u
 PROP="$1"; TIER="${2:-quick}"; RACE="${3:-}"
 export GOFLAGS=-mod=mod GOPROXY=off GOSUMDB=off GOTOOLCHAIN=local
 export GOCACHE="${GOCACHE:-/root/.cache/go-build}"
-cd /verif/harness || exit 2
-mkdir -p /verif/.build /verif/evidence
-BIN="/verif/.build/vcheck.$PROP.$$"
+ROOT="$(cd "$(dirname "${BASH_SOURCE[0]}")/.." && pwd)"   # /verif, or a snapshot of it (vp run)
+export VERIF_DIR="$ROOT"
+cd "$ROOT/harness" || exit 2
+mkdir -p "$ROOT/.build" "$ROOT/evidence"
+BIN="$ROOT/.build/vcheck.$PROP.$$"
 trap 'rm -f "$BIN"' EXIT
 FLAGS="-tags verif"
 [ "$RACE" = "race" ] && FLAGS="$FLAGS -race"
-if ! go build $FLAGS -o "$BIN" ./cmd/vcheck > "/verif/.build/build.$PROP.log" 2>&1; then
-  cat "/verif/.build/build.$PROP.log" | tail -30
+if ! go build $FLAGS -o "$BIN" ./cmd/vcheck > "$ROOT/.build/build.$PROP.log" 2>&1; then
+  cat "$ROOT/.build/build.$PROP.log" | tail -30
   echo "INCONCLUSIVE property=$PROP reason=build-failed (harness or /repo does not compile with -tags verif)"
   exit 2
 fi
